@@ -396,23 +396,24 @@ rc5_inst!(u8, U12, U255, m=w8, o=orc8big, u=1, t=26, c=255, b=255, unw=767;
     b255_8_12_255_ks, b255_8_12_255_enc, b255_8_12_255_dec, b255_8_12_255_rt1, b255_8_12_255_rt2, b255_8_12_255_api_enc, b255_8_12_255_api_dec);
 
 // ---------------------------------------------------------------- key length 0 (C10): accepted by the type, RC5 prescribes c = max(1, ceil(8b/w)) = 1
-// KNOWN TO BE REFUTED on the pinned tree: KeyAsWordsSize<u32, U0> = 0, so `mix_in` indexes an empty array (and would
-// compute `% 0`): `RC5::<u32, U12, U0>::new(&Array::default())` panics for the (only) key of length 0.
-// @ob name=f_b0_32_12_0_api props=C10,C11,C20 kind=contract fn=rc5::RC5::new,rc5::RC5::substitute_key,rc5::RC5::mix_in,rc5::RC5::encrypt_block,rc5::RC5::decrypt_block timeout=300 note="RC5-32/12/0"
+// Was REFUTED on the pinned tree (KeyAsWordsSize<u32, U0> = 0: `mix_in` indexed an empty array / computed `% 0`, so
+// `RC5::<u32, U12, U0>::new(&Array::default())` panicked for the only key of length 0); discharged since the fix in /repo.
+// The key is empty, so the expanded table is one concrete value: it must be the table of RC5-32/12/0 (c = 1, L[0] = 0).
+// The block functions do not depend on B (t32_12_16_enc / _dec / _rt1 / _rt2 cover RC5<u32, U12, _>).
+// @ob name=f_b0_32_12_0_api props=C10,C11,C20 kind=contract fn=rc5::RC5::new,rc5::RC5::substitute_key,rc5::RC5::key_into_words,rc5::RC5::mix_in,rc5::RC5::new_from_slice timeout=300 note="RC5-32/12/0"
 #[kani::proof]
 #[kani::unwind(80)]
 fn f_b0_32_12_0_api() {
     let key: [u8; 0] = [];
-    let b: [u8; 8] = kani::any();
     let c = <RC5<u32, U12, U0> as KeyInit>::new(&Array(key));
     let s = r::w32::key_expansion::<26, 1>(&key);
-    let mut blk = Array(b);
-    cipher::BlockCipherEncrypt::encrypt_block(&c, &mut blk);
-    let (x, y) = r::w32::encrypt_words::<26>(&s, r::w32::word_from_le(&b[..4]), r::w32::word_from_le(&b[4..]));
-    assert!(r::w32::word_from_le(&blk.0[..4]) == x && r::w32::word_from_le(&blk.0[4..]) == y);
-    cipher::BlockCipherDecrypt::decrypt_block(&c, &mut blk);
-    assert!(eq_n(&blk.0, &b));
+    let mut i = 0;
+    while i < 26 {
+        assert!(c.key_table.0[i] == s[i]);
+        i += 1;
+    }
     assert!(<RC5<u32, U12, U0> as KeyInit>::new_from_slice(&key[..]).is_ok());
+    assert!(<RC5<u32, U12, U0> as KeyInit>::new_from_slice(&[0u8][..]).is_err());
 }
 
 // ---------------------------------------------------------------- C19 Debug / AlgorithmName
